@@ -101,6 +101,18 @@ def main(ctx):
     spec_subj = ["\u017f", "\u212a", "\u00df", "\u0130", "\u0131", "s", "S", "k", "K", "i", "I", "ss", "SS", "\u01c5", "\u03c2", "\u03c3", "\u03a3", "\u00b5", "\u03bc", "\u1e9e", "\ufb01", "fi", "\u00e9", "\u00c9", "a\u017fb", "x\u212a"]
     spec_pats = ["s", "S", "k", "K", "i", "I", "ss", "[a-z]", "[A-Z]", "[s]", "[^s]", "[^S]", "\\w", "\\W", "[\\w]", "[^\\W]", "\u017f", "\u212a", "\u00df", "\u0130", "\u0131", "\u03c3", "\u03a3", "\u03c2", "\u00b5", "\u00e9",
                  "[\u00e0-\u00ff]", "[\u03b1-\u03c9]", "(s)\\1", "(\u03c3)\\1", "\\bs", "s\\b", "\\Bs", "[j-l]", "[J-L]", "[r-t]", "[R-T]", "."]
+    # character classes whose items overlap, nest, touch, repeat, or put class escapes next to '-'
+    cls_items = ["a-z", "c", "a-c", "b", "\\w", "5", "\\s", "\\n", "\\W", "\\d", "-", "x-z", "\\d-z", "a-\\d", "\\w-", "0-9", "3-5", "A-Z", "M", "_", "\\D", "\\S", "^", "\\]", "\\\\", "a-a", "z-z"]
+    cls_pats = []
+    crng = random.Random(99)
+    for i in range(700 if ctx.quick else 6000):
+        r_ = crng if i % 2 == 0 else rng
+        body = "".join(r_.sample(cls_items, r_.randint(2, 4)))
+        if body.startswith("^"):
+            body = "c" + body
+        neg = "^" if r_.random() < 0.35 else ""
+        cls_pats.append(("[" + neg + body + "]" + r_.choice(["", "+", "*", "{2}"]) + r_.choice(["", "$", "x"]), r_.choice(["", "i", "g", "m"])))
+    groups.append(("class-item-interactions", cls_pats, ["xcy", "x1", "c", "x\ry", "a-.b", "1-z", "a-5", "AbC_9", "m M", " \n\t", "zz", "a]\\^", "3", "-", "Zx"]))
     groups.append(("case-folding-specials", [(p, f) for p in spec_pats for f in ("", "i")], spec_subj))
     # random patterns
     nrand = 3000 if ctx.quick else 120000
